@@ -596,3 +596,104 @@ example : readValidateRows [true, false, true] .seek [97, 10, 98, 10, 99] 2 = so
     readValidateRows [true, false, true] .carry [97, 10, 98, 10, 99] 100 = some 1 := by decide
 
 end C15
+
+namespace C15
+open C01
+
+/-! ### the column-count test and the value parsing together (`readValidateDelim`, what the driver runs) -/
+
+theorem reportedBoth_splitBy_false : ∀ (sizes : List Nat) (cols : List Nat) (flags : List Bool) (L : Nat),
+    cols.length = flags.length →
+    reportedBoth false L (splitBy sizes cols) (splitBy sizes flags) = reportedRows L (splitBy sizes flags) := by
+  intro sizes
+  induction sizes with
+  | nil => intro cols flags L _; simp [splitBy, reportedBoth, reportedRows]
+  | cons n ns ih =>
+    intro cols flags L hlen
+    simp only [splitBy, reportedBoth, reportedRows]
+    cases firstBad id (flags.take n) with
+    | some i => simp
+    | none =>
+      simp only [Bool.false_eq_true, ↓reduceIte]
+      have h1 : (cols.take n).length = (flags.take n).length := by simp [hlen]
+      rw [h1]
+      exact ih (cols.drop n) (flags.drop n) _ (by simp [hlen])
+
+/-- formats without a column-count test (SAM): the driver's function is `readValidateRows` -/
+theorem readValidateDelim_nocheck (cols : List Nat) (flags : List Bool) (h : cols.length = flags.length)
+    (mode : Mode) (file : Bytes) (k : Nat) :
+    readValidateDelim false cols flags mode file k = readValidateRows flags mode file k := by
+  unfold readValidateDelim readValidateRows
+  exact reportedBoth_splitBy_false _ cols flags 0 h
+
+theorem firstIrregular_of_all (n : Nat) (c : List Nat) (h : ∀ x ∈ c, x = n) : firstIrregular c = none :=
+  firstIrregular_regular n c h
+
+theorem reportedBoth_splitBy_regular (n : Nat) : ∀ (sizes : List Nat) (cols : List Nat) (flags : List Bool) (L : Nat),
+    cols.length = flags.length → (∀ x ∈ cols, x = n) →
+    reportedBoth true L (splitBy sizes cols) (splitBy sizes flags) = reportedRows L (splitBy sizes flags) := by
+  intro sizes
+  induction sizes with
+  | nil => intro cols flags L _ _; simp [splitBy, reportedBoth, reportedRows]
+  | cons m ns ih =>
+    intro cols flags L hlen hreg
+    simp only [splitBy, reportedBoth, reportedRows, ↓reduceIte]
+    rw [firstIrregular_regular n (cols.take m) (fun x hx => hreg x (List.mem_of_mem_take hx))]
+    cases firstBad id (flags.take m) with
+    | some i => simp
+    | none =>
+      simp only
+      have h1 : (cols.take m).length = (flags.take m).length := by simp [hlen]
+      rw [h1]
+      exact ih (cols.drop m) (flags.drop m) _ (by simp [hlen]) (fun x hx => hreg x (List.mem_of_mem_drop hx))
+
+/-- **C15.readValidateDelim_regular** — what the driver runs for BED/VCF/GTF/…: when every line has the
+same number of columns the column-count test is silent for every chunking, so the reported line is the
+first row that does not parse (`readValidateRows_line`), for every chunk size and mode. -/
+theorem readValidateDelim_regular (n : Nat) (cols : List Nat) (flags : List Bool) (h : cols.length = flags.length)
+    (hreg : ∀ x ∈ cols, x = n) (mode : Mode) (file : Bytes) (k : Nat) :
+    readValidateDelim true cols flags mode file k = readValidateRows flags mode file k := by
+  unfold readValidateDelim readValidateRows
+  exact reportedBoth_splitBy_regular n _ cols flags 0 h hreg
+
+/-! ### the three layers that add the chunk's offset (reader, table reader, lazy field getter) -/
+
+theorem readLazy_length (L : Nat) (cs : List (List Bool)) : (readLazy L cs).length = cs.length := by
+  induction cs generalizing L with
+  | nil => rfl
+  | cons c cs ih => simp [readLazy, ih]
+
+/-- **C15.lazy_access_any_time** — whenever the `i`-th lazily read chunk is looked at (in whatever order,
+after however many later reads), its first non-parsing row is reported at (lines of all earlier chunks)
++ (row within the chunk): the offset is the chunk's own, not the reader's current one. -/
+theorem lazy_access_any_time : ∀ (cs : List (List Bool)) (L i : Nat) (hi : i < cs.length),
+    ((readLazy L cs)[i]?).bind accessLazy = (firstBad id cs[i]).map (· + (L + (cs.take i).flatten.length)) := by
+  intro cs
+  induction cs with
+  | nil => intro L i hi; simp at hi
+  | cons c cs ih =>
+    intro L i hi
+    cases i with
+    | zero => simp [readLazy, accessLazy]
+    | succ i =>
+      simp only [readLazy, List.getElem?_cons_succ, List.getElem_cons_succ, List.take_succ_cons, List.flatten_cons, List.length_append]
+      rw [ih (L + c.length) i (by simpa using hi)]
+      congr 1; funext x; omega
+
+/-- **C15.lazy_eq_eager** — looking at the lazily read chunks in file order reports exactly what eager
+reading reports (the first non-parsing row of the file, counted from the start of the data). -/
+theorem lazy_eq_eager : ∀ (cs : List (List Bool)) (L : Nat),
+    (readLazy L cs).findSome? accessLazy = reportedRows L cs := by
+  intro cs
+  induction cs with
+  | nil => intro L; rfl
+  | cons c cs ih =>
+    intro L
+    simp only [readLazy, List.findSome?_cons, accessLazy, reportedRows]
+    cases firstBad id c with
+    | some i => simp [Nat.add_comm]
+    | none => simp [ih]
+
+example : ((readLazy 0 [[true, true], [true, false, true], [false]])[1]?).bind accessLazy = some 3 := by decide
+
+end C15
